@@ -40,6 +40,22 @@ NEEDS={
 "C19-1":"two producers and a consumer: a slot is freed before the expanding producer's length snapshot and refilled before its write lock",
 "C19-2":"a retry that succeeds after the consumer freed a slot (shadowed 'sent' flag counts the row as dropped too)",
 "C20-1":"unnest(col) plus another projected column, the array holding objects (caller's nested maps gain columns)",
+"C03-3":"first_value/last_value with the column ABSENT in the first/last row of the group (merged NULL/missing guard; round 3)",
+"C03-4":"percentile(v, 1) or percentile(v, 0): an integer literal p is rejected by Init, the error is swallowed and the default p=0.95 is used",
+"C05-3":"a flat AND/OR chain of comparisons with one compared column missing or NULL (chain evaluator answers false instead of deferring to the general path)",
+"C05-4":"an arithmetic SELECT expression, an earlier row with a non-numeric text operand, then rows with numeric-text / NULL / int operands (fast path switched off for the rest of the stream)",
+"C06-3":"a bare col + col reaching the bridge (back-quoted identifiers), first row with text operands, later rows numeric (routing cached per expression text)",
+"C06-4":"least() with >= 3 numeric arguments, the first not the minimum, the true minimum next and a later value in between",
+"C07-3":"HAVING on an unselected aggregate f(col) while the SELECT list has f(<expression starting with col>) under an alias",
+"C07-4":"LIMIT with HAVING and no ORDER BY, more groups than LIMIT, a group before the cut failing HAVING",
+"C11-3":"a lower- or mixed-case keyword directly before '(' inside a SELECT expression (case when (..), and (..))",
+"C11-4":"ORDER BY with a DESC key followed by a key without direction",
+"C14-3":"acc_min/acc_max with the 3-argument form after the reset predicate fired, later values on one side of 0",
+"C14-4":"an expression wrapped around an analytic call (v - lag(v)) and a row lacking the column after a row that had it",
+"C15-3":"an event lacking a column that DEFINE/MEASURES mention, after an event that had it (evaluation map reused)",
+"C15-4":"PERMUTE of three variables with the event orders B C A or C B A",
+"C19-3":"two producers: a slot freed before the expanding producer's length snapshot and refilled before its write lock",
+"C19-4":"an expansion step where oldCap*GrowthFactor exceeds both oldCap+MinIncrement and MaxBufferSize",
 "C20-2":"two instances whose bridge-routed expressions differ only in letter case of a column name or literal",
 }
 res={}
